@@ -1,5 +1,5 @@
 (* C06 — a failing algorithm is reported and never wedges the study.  Statements only. *)
-From VZ Require Import Base.Prelude Model.Service Proofs.ServiceP.
+From VZ Require Import Base.Prelude Model.Service Proofs.ServiceP Proofs.WedgeP.
 
 (* the continuation taken when Pythia fails / under-delivers / its metadata cannot be stored is finish_op: whenever the
    operation record exists, the RPC ends with a DONE operation carrying the error flag, and exactly that is stored *)
@@ -36,6 +36,20 @@ Theorem C06_failing_history_not_wedged :
 Proof. vm_compute. reflexivity. Qed.
 Print Assumptions C06_failing_history_not_wedged.
 
-(* FULL statement, decided by correspondence + monitor, not yet proved for all histories: *)
-Definition all_done (s : state) : Prop := forall k n o, In (k, n) (nodes s) -> In o (n_ops n) -> o_done o = true.
-Definition C06_never_wedged_full : Prop := forall s ro, all_done s -> all_done (step_state s ro).
+(* The state invariant behind "never wedged": an RPC that ends normally leaves no suggestion operation unfinished, for
+   every state with unique study / operation keys, every RPC and every Pythia answer (incl. failures, short and empty
+   deliveries, metadata that cannot be stored).  Proved by showing that every normally ending path of SuggestTrials after
+   the creation of its operation record runs finish_op, and that no other handler writes an operation. *)
+Theorem C06_never_wedged : forall s ro s' r, wf s -> all_done s -> step s ro = (s', Done r) -> all_done s' /\ wf s'.
+Proof. exact never_wedged. Qed.
+Print Assumptions C06_never_wedged.
+
+Theorem C06_never_wedged_history : forall ops,
+  forallb is_done (run_outcomes ops init_state) = true -> all_done (run_all ops init_state).
+Proof. intros ops H. destruct wf_init as [W A]. exact (proj1 (never_wedged_history ops init_state W A H)). Qed.
+Print Assumptions C06_never_wedged_history.
+
+(* PARTIAL: RPCs that end with an error.  Errors raised by the guards (missing / inactive study) come before the operation
+   record exists; an error of the datastore itself after that point leaves the record unfinished in the model as in the
+   code (known finding C05-crash-inside-suggest-leaves-operation is the crash variant).  That such datastore errors cannot
+   occur on a well-formed state is decided by the correspondence + monitor, not by a theorem. *)
